@@ -19,7 +19,8 @@
                       with room for Len never fails for lack of room. *)
 From Sdns Require Import Common.Base Gen.C15 C15.Model C15.Proofs_bits C15.Proofs_select C15.Proofs_buf
                          C15.Proofs_pack C15.Proofs_clone C15.Proofs_refute C15.Concrete C15.Proofs_concrete
-                         C15.Hybrid C15.Proofs_hybrid C15.Run C15.Proofs_history C15.Cache C15.Proofs_cache.
+                         C15.Hybrid C15.Proofs_hybrid C15.Run C15.Proofs_history C15.Cache C15.Proofs_cache
+                         C15.Layouts C15.Proofs_escape.
 
 (* ---- translator ties: constants re-read from pack.go ---- *)
 
@@ -33,10 +34,25 @@ Print Assumptions gen_flag_bits_are_the_librarys.
 Theorem gen_sizes_and_ranges :
   header_len = 12%N /\ (pack_buffer_size < 16384)%N /\ (12 < pack_buffer_size)%N /\ question_fixed_len = 4%N /\
   rcode_min = 0%Z /\ rcode_max = 4095%Z /\ rcode_plain_max = 15%Z /\
-  ext_ttl_keep_mask = 16777215%N /\ ext_rcode_shift = 4%N /\ ext_ttl_shift = 24%N /\
-  compressible_q_over = 1%N /\ compressible_an_over = 0%N /\ compressible_ns_over = 0%N /\ compressible_ex_over = 0%N.
+  ext_ttl_keep_mask = 16777215%N /\ ext_rcode_shift = 4%N /\ ext_ttl_shift = 24%N.
 Proof. exact gen_sizes. Qed.
 Print Assumptions gen_sizes_and_ranges.
+
+(* session 5 — translated from the AST with the dns.RR interface as a sum type (iface_cases): the
+   function wire.msgIsCompressible itself, not four numbers cut out of its text, is what the model's
+   compression decision is proved equal to, for every message (replaces four regex ties) *)
+Theorem gen_compressible_is_the_codes : forall m : T_Msg,
+  go_msgIsCompressible m =
+  is_compressible (N.of_nat (length (T_Msg_Question m))) (N.of_nat (length (T_Msg_Answer m)))
+                  (N.of_nat (length (T_Msg_Ns m))) (N.of_nat (length (T_Msg_Extra m))).
+Proof. exact gen_msgIsCompressible. Qed.
+Print Assumptions gen_compressible_is_the_codes.
+Example compressible_two_questions :
+  go_msgIsCompressible (mk_T_Msg (mk_T_MsgHdr 0%N false 0%Z false false false false false false false 0%Z) false
+     [mk_T_Question [] 1%N 1%N; mk_T_Question [] 1%N 1%N] [] [] []) = true /\
+  go_msgIsCompressible (mk_T_Msg (mk_T_MsgHdr 0%N false 0%Z false false false false false false false 0%Z) false
+     [mk_T_Question [] 1%N 1%N] [] [] []) = false.
+Proof. split; reflexivity. Qed.
 
 (* translated from the AST (purefunc, stage 3 with third-party structs): rrView.Header() *)
 Theorem gen_shim_header_is_its_own_copy : forall v, go_rrView_Header v = T_rrView_hdr v.
@@ -301,7 +317,8 @@ Print Assumptions packclone_eq_libpack.
 
 (* ---- nothing assumed: the concrete library primitives ---- *)
 
-(* C15.Concrete models packDomainName with its compression dictionary (escape-free names) and
+(* C15.Concrete models packDomainName with its compression dictionary (every presentation name;
+   since session 5 with the backslash escapes, see the end of this file) and
    packRR for step-sequence records (A — including the octet-skipping 16-byte form —, AAAA,
    NS, CNAME, PTR, MX, DNAME, NULL, TXT — including the empty one that pokes an octet beyond
    what it advances over —, SOA, SRV, HINFO, CAA, DS, DNSKEY, RRSIG, NSEC, TLSA, OPT with opaque
@@ -554,3 +571,52 @@ Example consumers_see_the_signed_reply :
   (exists m', fst (write_msg_c true true dirty_state wc_msg) = SentMsg m') /\
   fst (fingerprint_c (fun b => b) dirty_state wc_msg) = FpSum [0;0;0;0;0;0;0;0;0;0;0;0]%N.
 Proof. exact consumers_witness. Qed.
+
+(* ---- session 5: presentation escapes (names and character-strings) are part of the concrete model ----
+
+   Until session 4 the name model refused a text with a backslash and the drivers kept such values
+   under the hybrid theorems' assumption rdata_plan_ok.  Now pn_loop decodes \DDD (modulo 256) and \c
+   as packDomainName does (in place, one octet of room asked for at each escape), keys the dictionary
+   on the SOURCE text of the suffix, IsFqdn counts the backslashes in front of the final dot, and
+   Len() is the decoded length (escapedNameLen) — so all the concrete_* theorems above (premises,
+   parity, pool independence, schedules, PackClone, histories, the three consumers) now hold for
+   messages whose names and strings carry escapes, with no premise.  What the escape handling MEANS: *)
+
+(* Len() — what TryPack's size probe adds up — bounds what the packer advances over and demands of
+   the buffer for every name, and is never more than the text + 1 *)
+Theorem name_len_bounds_the_packer_with_escapes : forall s off cm c pl,
+  plan_name s off cm c = Some pl ->
+  p_off pl <= off + name_len s /\ p_need pl <= off + name_len s /\ name_len s <= length s + 1.
+Proof. exact name_len_bounds_l. Qed.
+Print Assumptions name_len_bounds_the_packer_with_escapes.
+
+(* without a dictionary, for EVERY presentation name other than "" and ".": the octets written are,
+   back to back from the offset given, the RFC 1035 encoding of the labels obtained by decoding the
+   escapes and splitting at the unescaped dots, then the root octet; every label is non-empty and
+   shorter than 64 octets (otherwise the name is refused); no dictionary comes into being *)
+Theorem packed_name_is_the_encoding_of_its_decoded_labels : forall s off c pl,
+  plan_name s off None c = Some pl -> s <> [] -> bytes_eqb s [dot] = false ->
+  let ls := split_labels (tokens s) [] in
+  contig off (p_writes pl) /\
+  flat_map snd (p_writes pl) = encode_labels ls ++ [0%N] /\
+  p_off pl = (off + length (encode_labels ls) + 1)%nat /\
+  Forall label_ok ls /\ p_cm pl = None.
+Proof. exact plan_name_is_the_encoding. Qed.
+Print Assumptions packed_name_is_the_encoding_of_its_decoded_labels.
+
+(* the sizing of a character-string field is the length of its TEXT (+ 1 with a length octet), for
+   every text: what the record's len() counts, whatever the escapes decode to *)
+Theorem character_string_sizing_is_the_text : forall s,
+  body_len (txt_string_steps s) = (length s + 1)%nat /\ body_len (octet_steps s) = length s.
+Proof. exact character_string_sizing. Qed.
+Print Assumptions character_string_sizing_is_the_text.
+
+Example escaped_name_packs :
+  split_labels (tokens esc_name) [] = [[101;120;46;97;109;112;108;101]; [65;98;99]]%N /\
+  name_len esc_name = 14%nat /\ length esc_name = 17%nat /\
+  option_map (fun pl => (flat_map snd (p_writes pl), p_off pl)) (plan_name esc_name 12 None true)
+    = Some ([8;101;120;46;97;109;112;108;101;3;65;98;99;0]%N, 26%nat) /\
+  option_map p_off (plan_name esc_name 12 (Some [([92;48;54;53;98;99;46]%N, 40%nat)]) true) = Some 23%nat /\
+  option_map p_off (plan_name esc_name 12 (Some [([65;98;99;46]%N, 40%nat)]) true) = Some 26%nat /\
+  txt_string_steps [97;92;48;54;53;92]%N = [SBytes [2;97;65]%N; SRoom1; SOver 4].
+Proof. exact esc_name_witness. Qed.
